@@ -30,9 +30,9 @@ ASSUMPTIONS = ["each run uses a freshly loaded copy of the library, so 'alone' r
 EXPLANATION = "symbolic execution of two sessions' schedules in isolated and interleaved order; transcript equality is a z3 validity query"
 
 C_OPS = ["bind_simple", "search", "extended", "unbind", "recv_search_done", "recv_extended_response", "reg_control", "reg_filter", "send_custom"]
-S_OPS = ["recv_extended_request", "recv_search_request", "recv_bind_request", "extended_response", "search_done", "unbind", "reg_control", "recv_custom"]
+S_OPS = ["recv_extended_request", "recv_search_request", "recv_bind_request", "extended_response", "search_done", "unbind", "reg_control", "recv_custom", "recv_sd", "recv_sd_val"]
 C_RED = ["search", "reg_control", "send_custom"]
-S_RED = ["recv_extended_request", "reg_control", "recv_custom"]
+S_RED = ["recv_extended_request", "reg_control", "recv_custom", "recv_sd", "recv_sd_val"]
 
 
 def units(tier):
@@ -103,6 +103,39 @@ def custom_types(L):
     return MyControl, MyFilter, MyCred
 
 
+def _colliding_types(L, MyControl, MyFilter, MyCred):
+    """other classes that reuse ids already taken"""
+    C, F, A = L.controls, L.filter, L.auth
+
+    def ctl(oid):
+        @dataclasses.dataclass(frozen=True)
+        class Other(C.LDAPControl):
+            control_type: str = dataclasses.field(init=False, default=oid)
+            value: object = dataclasses.field(init=False, repr=False, default=None)
+
+        return Other
+
+    def flt(fid):
+        @dataclasses.dataclass(frozen=True)
+        class Other(F.LDAPFilter):
+            filter_id: int = dataclasses.field(init=False, repr=False, default=fid)
+
+        return Other
+
+    def cred(aid):
+        @dataclasses.dataclass(frozen=True)
+        class Other(A.AuthenticationCredential):
+            auth_id: int = dataclasses.field(init=False, repr=False, default=aid)
+
+        return Other
+
+    return (
+        {"custom": ctl("1.2.3.4"), "builtin": ctl("1.2.840.113556.1.4.319")},
+        {"custom": flt(20), "builtin": flt(7)},
+        {"custom": cred(9), "builtin": cred(0)},
+    )
+
+
 def do(ctx, sess_, side, op, tag, types):
     """one call; -> transcript entry (outcome, state, drained bytes)"""
     M = ctx.L.messages
@@ -115,6 +148,16 @@ def do(ctx, sess_, side, op, tag, types):
         elif op == "send_custom":
             p = ctx.bytes(f"{tag}.pl", 1)
             ret = sess_.extended_request("1.2", None, controls=[MyControl(critical=True, payload=p)])
+        elif op in ("recv_sd", "recv_sd_val"):
+            # a library-known control type, once without and once with a value
+            C = ctx.L.controls
+            mid = ctx.int(f"{tag}.mid", 0, sess.IDMAX)
+            if op == "recv_sd":
+                ctl = C.ShowDeletedControl(critical=False)
+            else:
+                ctl = C.LDAPControl("1.2.840.113556.1.4.417", False, ctx.bytes(f"{tag}.cv", 1))
+            data = M.ExtendedRequest(mid, [ctl], "1.2", None).pack(sess.po(ctx))
+            ret = sess_.receive(data)
         elif op == "recv_custom":
             p = ctx.bytes(f"{tag}.pl", 1)
             mid = ctx.int(f"{tag}.mid", 0, sess.IDMAX)
@@ -170,6 +213,10 @@ def body(ctx, shape):
                 ctx.require(_eq(ctx, x[0][1], y[0][1]), "interleaving-changes-result")
                 ctx.require(x[1] == y[1], "interleaving-changes-state")
                 ctx.require(ctx.eq(x[2], y[2]), "interleaving-changes-emitted-bytes")
+        # values handed out earlier are the caller's: nothing another session did later may alter them
+        for who in ("A", "B"):
+            for x, y in zip(got[who], iso[who]):
+                ctx.require(ctx.eq(x[0][1], y[0][1]), "value-returned-earlier-changed-by-a-later-operation")
 
 
 def _eq(ctx, x, y):
@@ -208,6 +255,26 @@ def _reg(ctx, shape):
                 ctx.fail("duplicate-registration-wrong-error", f"{type(e).__name__}@{exc_site(e)}")
             else:
                 ctx.fail("duplicate-registration-accepted")
+    # a DIFFERENT class claiming an id that is already taken (by a custom or a built-in type) is a
+    # duplicate registration too
+    Oc, Of, Oa = _colliding_types(L, MyControl, MyFilter, MyCred)
+    fresh = S.LDAPServer()
+    cases = [("builtin-control", fresh.register_control, Oc["builtin"]), ("builtin-filter", fresh.register_filter, Of["builtin"]), ("builtin-credential", fresh.register_auth_credential, Oa["builtin"])]
+    if regs["control"]:
+        cases.append(("custom-control", A.register_control, Oc["custom"]))
+    if regs["filter"]:
+        cases.append(("custom-filter", A.register_filter, Of["custom"]))
+    if regs["cred"]:
+        cases.append(("custom-credential", A.register_auth_credential, Oa["custom"]))
+    for nm, fn, t in cases:
+        try:
+            fn(t)
+        except ValueError:
+            pass
+        except Exception as e:  # noqa: BLE001
+            ctx.fail("duplicate-registration-wrong-error", f"{type(e).__name__}@{exc_site(e)}")
+        else:
+            ctx.fail("second-type-with-a-taken-id-accepted", nm)
     after = [list(B._packing_options.control.choices), list(B._packing_options.filter.choices), list(B._packing_options.authentication.choices)]
     ctx.require(before == after, "registration-on-A-changed-B")
     p = ctx.bytes("payload", 2)
